@@ -55,6 +55,22 @@ def context_fields(ctx):
             src = d[2].args[0] if d and d[0] == "call" and (d[2].callee or d[2].u or "").split("::")[-1] == "clone" and d[2].args else s[2][2][0]
             if node_role(b, src, ctx_fields=())[0] == "declared":
                 out.add(fs[0][2])
+                continue
+            # the assignment sits in a helper (`visit_within(name, ..)`): the source is a parameter, and every caller in the visitor hands
+            # the visited declaration's own name to that parameter
+            sp = op_place(src)
+            srt = b.root(sp) if sp is not None else None
+            if srt is not None and 2 <= srt[0] <= b.f["argc"] and not [x for x in srt[1] if isinstance(x, list)] and not (b.f.get("impl") or {}).get("trait_def"):
+                me = norm(b.id)
+                sites = []
+                for cb in ctx.prog.bodies.values():
+                    if (cb.f.get("impl") or {}).get("self") != VIS:
+                        continue
+                    for c in cb.calls():
+                        if c.callee == me and len(c.args) >= srt[0]:
+                            sites.append(node_role(cb, c.args[srt[0] - 1], ctx_fields=())[0])
+                if sites and all(x == "declared" for x in sites):
+                    out.add(fs[0][2])
     _CTX_FIELDS.clear()
     _CTX_FIELDS[key] = out
     return out
